@@ -129,20 +129,19 @@ def resolve(doc, host_sheet, host_table, text):
 
 
 def labels(table, axis):
-    """header labels of a table: axis 'col' -> {col: label} from the header rows; 'row' -> {row: label}"""
+    """header labels of a table: a column is named by its cell in the bottom header row, a row by its cell in the last header column
+    (Numbers' convention, and what a reader of the document sees next to the body cells)"""
     out = {}
-    if axis == "col":
+    if axis == "col" and table.num_header_rows:
         for c in range(table.num_header_cols, table.num_cols):
-            for r in range(table.num_header_rows):
-                v = table.cell(r, c).value
-                if isinstance(v, str) and v:
-                    out[c] = v
-    else:
+            v = table.cell(table.num_header_rows - 1, c).value
+            if isinstance(v, str) and v:
+                out[c] = v
+    elif axis == "row" and table.num_header_cols:
         for r in range(table.num_header_rows, table.num_rows):
-            for c in range(table.num_header_cols):
-                v = table.cell(r, c).value
-                if isinstance(v, str) and v:
-                    out[r] = v
+            v = table.cell(r, table.num_header_cols - 1).value
+            if isinstance(v, str) and v:
+                out[r] = v
     # a label that occurs more than once in its table is not a usable name of that table
     vals = list(out.values())
     return {i: v for i, v in out.items() if vals.count(v) == 1}
@@ -219,10 +218,14 @@ def build(case):
             for ti, t in enumerate(s.tables):
                 for c in range(t.num_header_cols, 5):
                     if t.num_header_rows:
-                        t.write(0, c, lab["col"][(c + (ti if lab.get("vary") else 0)) % len(lab["col"])])
+                        t.write(t.num_header_rows - 1, c, lab["col"][(c + (ti if lab.get("vary") else 0)) % len(lab["col"])])
+                        if t.num_header_rows > 1:  # the rows above the bottom header row carry other text: the next column's label
+                            t.write(0, c, lab["col"][(c + 1 + (ti if lab.get("vary") else 0)) % len(lab["col"])] if lab.get("cross") else f"group {c // 2}")
                 for r in range(t.num_header_rows, 5):
                     if t.num_header_cols:
-                        t.write(r, 0, lab["row"][(r + (ti if lab.get("vary") else 0)) % len(lab["row"])])
+                        t.write(r, t.num_header_cols - 1, lab["row"][(r + (ti if lab.get("vary") else 0)) % len(lab["row"])])
+                        if t.num_header_cols > 1:
+                            t.write(r, 0, lab["row"][(r + 1 + (ti if lab.get("vary") else 0)) % len(lab["row"])] if lab.get("cross") else f"part {r // 2}")
     return doc
 
 
@@ -266,9 +269,9 @@ def run_case(case):
         elif kind == "label":
             t = doc.sheets[step[1]].tables[step[2]]
             if step[3] == "col" and t.num_header_rows:
-                t.write(0, step[4], step[5])
+                t.write(t.num_header_rows - 1, step[4], step[5])
             elif step[3] == "row" and t.num_header_cols:
-                t.write(step[4], 0, step[5])
+                t.write(step[4], t.num_header_cols - 1, step[5])
         # names may now be ambiguous between siblings only if the step created a duplicate sibling: skip those documents
         sib = [[t.name for t in s.tables] for s in doc.sheets]
         if any(len(set(x)) != len(x) for x in sib) or len({s.name for s in doc.sheets}) != len(doc.sheets):
@@ -298,6 +301,14 @@ def main():
                             {"col": ["alpha", "beta", "gamma", "delta"], "row": ["r1", "r2", "r3", "r4"], "vary": True},
                             {"col": ["x+y", "a b", "p&q", "delta"], "row": ["r 1", "r-2", "r3", "r4"]}):
                     cases.append({"tables": sh, "hdr": list(hdr), "labels": lab})
+    # more than one header row / column: the label is the cell next to the body; the cells above / left of it carry other text,
+    # or (cross) the label of the neighbouring column / row
+    for sh in shapes[:5]:
+        for hdr in ((2, 1), (2, 2), (1, 2)):
+            for lab in ({"col": ["alpha", "beta", "gamma", "delta"], "row": ["r1", "r2", "r3", "r4"]},
+                        {"col": ["alpha", "beta", "gamma", "delta"], "row": ["r1", "r2", "r3", "r4"], "cross": True},
+                        {"col": ["alpha", "beta", "gamma", "delta"], "row": ["r1", "r2", "r3", "r4"], "cross": True, "vary": True}):
+                cases.append({"tables": sh, "hdr": list(hdr), "labels": lab})
     # histories: print, rename / relabel, print again
     for sh in shapes[1:7]:
         nsheets = len(sh)
